@@ -58,6 +58,9 @@ func (d defaultEntry) reduce(logN int) (ckks.ParametersLiteral, bootstrapping.Pa
 func defaultScenario(d defaultEntry, logN int, bootstrap bool) engine.Scenario {
 	name := fmt.Sprintf("default/%s/N%d", d.name, logN)
 	return engine.Scenario{Name: name, Bound: -1, Fn: func(c *engine.Chooser) {
+		if recordingSkipsID(fmt.Sprintf("default/%s/N%d", d.name, logN), name) {
+			return
+		}
 		uni.Seed(c, name)
 		resLit, btpLit := d.reduce(logN)
 		// the test suite's correction for the reduced ring (evaluator_test.go): raise the message ratio by
